@@ -28,7 +28,7 @@ inductive Kind
   | dnum   -- `.5`                float() ok, int() raises, first char '.'  (a *word* for Command._parse_line)
   | enum   -- `5E-1`, `1e3`       float() ok, int() raises, first char digit/sign, NO decimal point
   | word   -- `C1`, `$H`, `NOHKL` float() raises
-  | sym    -- `-x,`, `1/2+y,`     first char digit/sign but float() raises
+  | sym    -- `-x,`, `1/2+y,`, `1PE`  first char digit/sign, contains a letter, float() raises
   deriving DecidableEq, Repr
 
 def Kind.floatOk : Kind → Bool
@@ -194,7 +194,7 @@ def execBasic (st : St) : Act → Except Err St
       | some k => if k.intOk then .ok st else .error .ValueError
   | .floatFrom a => if allFloat (st.s.drop a) then .ok st else .error .ValueError
   | .floatRange a b => if allFloat ((st.s.take b).drop a) then .ok st else .error .ValueError
-  | .intNonWord a => if (st.s.drop a).all (fun k => k == .word || k.intOk) then .ok st else .error .ValueError
+  | .intNonWord a => if (st.s.drop a).all (fun k => k == .word || k == .sym || k.intOk) then .ok st else .error .ValueError
   | .unpackP n => if st.np == n then .ok st else .error .ValueError
   | .parseCmd i =>
       if parseCmdOk st.dot i (st.s.drop 1) then
@@ -429,7 +429,8 @@ def syntaxTable : List Syn := [
   { kw := "FRAG", code := 1179795783, slot := .frag, opts := [[int], [num, num, num, big, big, big]] },
   { kw := "FEND", code := 1178947140, slot := .fend },
   -- context objects
-  { kw := "RESI", code := 1380275017, alts := [[], [int], [word], [word, int], [int, word], [word, int, int], [int, word, int]] },
+  { kw := "RESI", code := 1380275017, alts := [[], [int], [word], [word, int], [int, word], [word, int, int], [int, word, int],
+      [sym, int], [int, sym], [int, sym, int]] },   -- residue classes may begin with a digit (`1PE`): lexical class `sym`
   { kw := "PART", code := 1346458196, mand := [int], opts := [[num]] },
   { kw := "AFIX", code := 1095125336, mand := [int], opts := [[num], [num], [num]] },
   -- atom-list objects
